@@ -260,6 +260,16 @@ def check(model: Model, run: Run) -> None:
     run.rule('C14.R4', 'a selector that matched nothing is not widened: after dispatch() returned the selector-derived peers, the dispatcher may default to all peers only for commands that carried no selector at all', floor=1)
     _r4_widening(model, run)
 
+    # ------------------------------------------------------------------ R11
+    run.rule(
+        'C14.R11',
+        'sibling agreement: what dispatch() takes for a selector (the predicate under which it hands the tokens to '
+        'extract_selector) is what dispatch_v6() takes for one when it tells "selector matched nothing" from "no selector '
+        'given" before defaulting to all peers - a second, narrower notion of selector widens the ones it does not know',
+        floor=1,
+    )
+    _r11_same_selector_notion(model, run)
+
     # ------------------------------------------------------------------ R5
     run.rule('C14.R5', 'all terms of a selector are tested: in match_neighbor the only exit inside the loop over the terms is the negative one', floor=1)
     _r5_matcher(model, run)
@@ -454,6 +464,66 @@ def _r4_widening(model: Model, run: Run) -> None:
             )
         else:
             run.ok(short(fi.qualname), 'no widening of an empty selector match')
+
+
+def _r11_same_selector_notion(model: Model, run: Run) -> None:
+    from ..alpha import Loc as _Loc
+
+    d = model.func('exabgp.reactor.api.dispatch.common.dispatch')
+    v6 = model.func('exabgp.reactor.api.dispatch.v6.dispatch_v6')
+    run.analysed(d)
+    run.analysed(v6)
+    preds: set[str] = set()
+    for c in model.calls_to(d.module, d.node, 'extract_selector'):
+        for t, pol in flat_guards(d.node, c):
+            if not pol:
+                continue
+            for x in ast.walk(t):
+                if isinstance(x, ast.Call):
+                    preds |= {q for q in model.callees(d.module, x) if q in model.funcs and q.startswith('exabgp.reactor.api.dispatch.')}
+    if not preds:
+        run.cannot('no predicate found in front of extract_selector in dispatch()')
+        return
+    loc = _Loc(model, v6)
+    sites = [n for n in walk_no_nested(v6.node) if isinstance(n, ast.Assign) and any(isinstance(c, ast.Call) and isinstance(c.func, ast.Attribute) and c.func.attr == 'peers' and dotted(c.func.value) == 'reactor' for c in ast.walk(n.value))]
+    if not sites:
+        run.cannot('dispatch_v6 no longer defaults to all peers: rule without an instance')
+        return
+    for n in sites:
+        called: set[str] = set()
+        todo: list[str] = []
+        for t, _pol in flat_guards(v6.node, n):
+            for x in ast.walk(loc.expanded(t)):
+                if isinstance(x, ast.Call):
+                    called.add((dotted(x.func) or '').rsplit('.', 1)[-1])
+            for x in ast.walk(t):
+                if isinstance(x, ast.Call):
+                    todo += [q for q in model.callees(v6.module, x) if q in model.funcs]
+        # ... or in a predicate helper the guard calls (followed three calls deep)
+        seen: set[str] = set()
+        for _ in range(3):
+            nxt: list[str] = []
+            for q in todo:
+                if q in seen:
+                    continue
+                seen.add(q)
+                called.add(q.rsplit('.', 1)[-1])
+                hf = model.funcs[q]
+                for x in walk_no_nested(hf.node):
+                    if isinstance(x, ast.Call):
+                        nxt += [c for c in model.callees(hf.module, x) if c in model.funcs and c.startswith('exabgp.reactor.api.dispatch.')]
+            todo = nxt
+        called |= {q.rsplit('.', 1)[-1] for q in todo}
+        missing = sorted(q.rsplit('.', 1)[-1] for q in preds if q.rsplit('.', 1)[-1] not in called)
+        run.check(
+            not missing,
+            v6.qualname,
+            'the default to all peers is decided with the selector predicate of dispatch() (%s)' % ', '.join(sorted(q.rsplit('.', 1)[-1] for q in preds)),
+            v6.loc(n),
+            'dispatch() parses a selector whenever %s() says so; dispatch_v6 decides "no selector was given" without it, so a '
+            'selector of a form it does not recognise (an IPv6 address such as fd00::1) that matches no neighbor is taken for '
+            '"no selector" and the command is applied to every neighbor' % '/'.join(missing),
+        )
 
 
 def _r5_matcher(model: Model, run: Run) -> None:
